@@ -30,6 +30,7 @@ type Ctx struct {
 	notes  []string
 	seen   map[string]bool
 	funcs  map[string]bool
+	sigs   map[string]bool
 }
 
 func newCtx(p *Prog, prop string) *Ctx {
@@ -38,6 +39,15 @@ func newCtx(p *Prog, prop string) *Ctx {
 
 func (c *Ctx) add(rule, key string, pos token.Pos, status, detail string) {
 	k := rule + "/" + key
+	// the same rule instance reached twice (a rule shared by two rule sets): record once
+	sig := k + "|" + c.P.pos(pos) + "|" + status + "|" + detail
+	if c.sigs == nil {
+		c.sigs = map[string]bool{}
+	}
+	if c.sigs[sig] {
+		return
+	}
+	c.sigs[sig] = true
 	// keys must be unique; disambiguate duplicates deterministically
 	if c.seen[k] {
 		for i := 2; ; i++ {
